@@ -154,7 +154,13 @@ func newWorker(seed int64) (*worker, error) {
 	}
 	b := &Binding{T: t, Owner: c.Signer.String(), BaseDSeq: BaseDSeq, FreshDSeq: uint64(1000 + seed%100000), Seed: seed}
 	tl := t.TLA()
-	lin := func(name string) AVal { return AVal{K: "lin", A: tl[name].(int64)} }
+	lin := func(name string) AVal {
+		v := AVal{K: "lin", A: tl[name].(int64)}
+		if bb, ok := tl[name+"B"]; ok {
+			v.B = bb.(int64)
+		}
+		return v
+	}
 	base := AMsg{Kind: "create", Idc: "exists", Version: t.VersionLen, Deposit: lin("MinDeposit"), DDenom: t.DepDenom,
 		Groups: []AGroup{{Name: "base", Units: []AUnit{{CPU: lin("MinUnitCPU"), Mem: lin("MinUnitMem"), Sto: lin("MinUnitSto"),
 			Count: tl["MinUnitCount"].(int64), Price: lin("MinUnitPrice"), PDenom: t.NetDenom}}}}}
